@@ -124,6 +124,8 @@ def _rename_cond(c, pi):
         return [k, c[1], [_rename_term(a, pi) for a in c[2]]]
     if k == "hastype":
         return ["hastype", _rename_term(c[1], pi), c[2]]
+    if k == "const":
+        return c
     if k in ("and", "or"):
         return [k, c[1], [_rename_cond(x, pi) for x in c[2]]]
     if k == "not":
